@@ -282,6 +282,11 @@ loop:
 	case Shutdown:
 		return errorx.ErrEngineShutdown
 	}
+	if !c.opened {
+		// The connection has been closed inside OnTraffic (EventLoop.Close or a failed write),
+		// its file descriptor is gone and might already be reused, stop reading from it.
+		return nil
+	}
 	_, _ = c.inboundBuffer.Write(c.buffer)
 	c.buffer = c.buffer[:0]
 
